@@ -14,6 +14,7 @@ import Frp.Engines.Wire
 import Frp.Engines.Group
 import Frp.Engines.Http
 import Frp.Engines.Peer
+import Frp.Engines.RegRace
 /-! Registry of driver engines (one line per engine). -/
 namespace Frp.Engines
 open Frp.Proto
@@ -35,5 +36,6 @@ def all : List (String × Engine) :=
   , ("group", group)
   , ("http", http)
   , ("peer", peer)
+  , ("regrace", regrace)
   ]
 end Frp.Engines
